@@ -474,8 +474,8 @@ class Expectation(Pytree):
         return self.prog.jvp_estimate(key, dual_tree, _identity)
 
     def estimate(self, key, args):
-        tangents = jtu.tree_map(lambda _: 0.0, args)
-        return self.jvp_estimate(key, tangents).primal
+        tangents = jtu.tree_map(lambda v: jnp.zeros_like(v), args)
+        return self.jvp_estimate(key, Dual.dual_tree(args, tangents)).primal
 
     ##################################
     # JAX's native `grad` interface. #
